@@ -49,13 +49,16 @@ def gen_spec(r, fam=None, depth=0):
         return [fam, dim, {"dim": dim}]
     base_fams = ["FunctionLinear", "FunctionPolynomial", "GenzOszillatory", "GenzGaussian", "GenzC0", "ConstantValue", "GenzProductPeak"]
     if fam == "FunctionShift":
-        inner = gen_spec(r, r.choice(["FunctionPolynomial", "GenzOszillatory", "GenzGaussian", "FunctionLinear"]))
+        inner = gen_spec(r, r.choice(["FunctionPolynomial", "GenzOszillatory", "GenzGaussian", "FunctionLinear", "GenzDiscontinious", "GenzC0", "FunctionMultilinear"]))
         return [fam, inner[1], {"inner": inner, "shift": [rc(r, -1, 1) for _ in range(inner[1])]}]
     if fam == "FunctionCompose":
-        first = gen_spec(r, r.choice(base_fams))
+        # every scalar family with an analytic integral valid on [0,1]^d can be a component; the order of the components is
+        # part of the schedule (a component must not disturb what the later ones see)
+        comp_fams = base_fams + ["GenzDiscontinious", "GenzDiscontinious", "GenzCornerPeak", "FunctionMultilinear"]
+        first = gen_spec(r, r.choice(comp_fams))
         parts = [first]
         for _ in range(r.randint(0, 2)):
-            p = gen_spec(r, r.choice(base_fams))
+            p = gen_spec(r, r.choice(comp_fams))
             p = _with_dim(r, p, first[1])
             parts.append(p)
         return [fam, first[1], {"parts": parts, "factors": [rc(r, -2, 2) for _ in parts]}]
@@ -298,6 +301,13 @@ class C12(Check):
             else:
                 lo = [round(a[d] + (b[d] - a[d]) * o.uniform(0.0, 0.6), 3) for d in range(dim)]
                 boxes.append([lo, [round(lo[d] + (b[d] - lo[d]) * o.uniform(0.2, 1.0), 3) for d in range(dim)]])
+        # the reference quadrature costs 14^dim evaluations per piece between kinks: boxes beyond the budget are left out
+        def cost(box):
+            c = 14.0 ** dim
+            for d in range(dim):
+                c *= 1 + len(set(k for k in kinks(spec, d) if box[0][d] < k < box[1][d]))
+            return c
+        boxes = [bx for bx in boxes if spec[0] == "FunctionDiagonalDiscont" or cost(bx) <= 6e5]
         return {"config": {"spec": spec, "boxes": boxes}, "ops": ops}
 
     def simplify(self, s):
